@@ -154,7 +154,22 @@ PK['fiber'] = dict(pkg='fiber', extra='//@ func fiber.Ctx.UserContext\n//@   noc
    loopattached='ncalls("fiber.Ctx.SetUserContext") == 1 && ncalls("fiber.Ctx.Locals") == 1 && callarg("fiber.Ctx.SetUserContext", 0, 1) == pure("godi.Scope.Context", scope) && callarg("fiber.Ctx.Locals", 0, 1) == box(scopeKey, "string") && calltime("fiber.Ctx.Locals", 0) < clock && (forall a int :: 0 <= a && a < idx ==> calltime("fiber.Ctx.Locals", 0) < calltime("fnvar:mw", a))',
    hcaptured='c != nil', hreqctx='', herridx=2, fromctx=False)
 
+def options(P):
+    # the library's own option constructors never leave the configuration without a handler: a nil argument keeps the default
+    # (C15: no container operation panics on any input; the Config comments promise the default handler for nil)
+    lines = ['// The option constructors of this package keep the configuration complete: a nil handler keeps what is there (the default).',
+             '// This is what makes `handlers_set`, the precondition of the request closures above, true for configurations built from them.']
+    for fn, field, cfgname in [('WithErrorHandler', 'ErrorHandler', 'c'), ('WithCloseErrorHandler', 'CloseErrorHandler', 'c'),
+                      ('WithPanicHandler', 'PanicHandler', 'c'), ('WithScopeErrorHandler', 'ScopeErrorHandler', 'c'),
+                      ('WithResolutionErrorHandler', 'ResolutionErrorHandler', 'c')]:
+        lines.append('//@ func %s$1' % fn)
+        lines.append('//@   safety[C15,C16]')
+        lines.append('//@   requires cfg: %s != nil' % cfgname)
+        lines.append('//@   ensures[C15,C16] a_nil_handler_keeps_the_default: old(%s.%s) != nil ==> %s.%s != nil' % (cfgname, field, cfgname, field))
+        lines.append('//@   ensures[C16] a_given_handler_is_installed: h != nil ==> %s.%s == h' % (cfgname, field))
+    return "\n".join(lines) + "\n//\n"
+
 for k, P in PK.items():
-    txt = HEAD.format(pkg=P['pkg'], extra=P['extra']) + mw(P) + handle(P)
+    txt = HEAD.format(pkg=P['pkg'], extra=P['extra']) + mw(P) + handle(P) + options(P)
     open('/repo/%s/zz_contracts_verif.go' % k, 'w').write(txt)
     print('wrote', k)
